@@ -3,3 +3,43 @@ check("C01", "exploration", "reference-model monitor (independent three-valued l
       "Every Check answer on seeded models/tuples/contexts over a bounded vocabulary is compared with an independent reference semantics that is first calibrated against the repository's own 1146 YAML expectations; each request runs under the default-only and the fast-strategy planner modes (hook H1). Held on the cases listed in the evidence — not a proof over all models.",
       "Trusted: harness/ref (3-valued Kleene lfp, own tuple validator, template condition evaluator), generator reach (4 types, depth<=3, 3 ids/type), memory backend in quick (sqlite added in thorough). Known findings are matched by executable deviation models, see known_findings.json.",
       "DESIGN.md §5 C01, §3.2")
+check("C05", "exploration", "reference-model monitor on ListObjects / StreamedListObjects result sets (soundness, duplicates, completeness, exact count under limit) across three engines",
+      "Every sampled ListObjects / StreamedListObjects answer of the classic, weighted (optimizations flag) and pipeline engines (pipeline tuning variants, result limits 1/2/3/none, forced strategy modes, 1ns-deadline truncation) is compared with the reference set computed by the calibrated reference semantics. Held on the explored cases only.",
+      "Trusted: harness/ref; generous server deadlines so answers are not deadline-truncated; memory backend. Deviations are attributed to known findings only through executable deviation models.",
+      "DESIGN.md §5 C05")
+check("C13", "exploration", "differential monitor memory vs sqlite against documentation-derived filter predicates, deviation-model attribution",
+      "For ~58k (quick) / 1.4M (thorough) reads over random write histories in small adversarial universes, every answer of both backends must lie in the documented filter band, the backends must agree as multisets, conditions round-trip and sorted results are ordered. Sampled, not exhaustive.",
+      "Trusted: storagefilter predicates written from pkg/storage/storage.go doc comments; the store model for ds.Write; sqlite only (postgres/mysql not runnable).",
+      "DESIGN.md §5 C13")
+check("C14", "exploration", "exactly-once / ordering history checker over paged API walks + token-grammar misuse oracle",
+      "Every walk of Read, ReadChanges, ListStores and ReadAuthorizationModels on memory and sqlite (plain and AES-GCM tokens, page sizes 1..100, n up to ~130 quick / 301 thorough) is judged against the driver's own write record: exactly once, documented order, termination; forged / mutated / cross-filter tokens must be rejected and never panic.",
+      "Sequential writers except the busy-neighbour scenario; Read order not judged (undocumented); postgres/mysql not run.",
+      "DESIGN.md §5 C14")
+check("C23", "exploration", "executable slice-level specifications as oracles over the real iterator adapters with single fault/cancel injection at every position; concurrent history checking of shared-iterator clones; -race",
+      "Each adapter of pkg/storage and internal/iterator must yield exactly the sequence its documentation defines, surface injected errors/cancellations at the specified place, keep Head non-consuming and stop its inputs; every clone of a shared iterator must see the full underlying sequence (or documented prefix + error) under concurrent, late-joining, stopping and cancelling clones. ~25k cases quick / ~414k thorough.",
+      "Inner iterators are contract-abiding fakes; undocumented behaviour (after error, after Stop, unsorted input) not judged; asynchronous stops awaited with a bound (timeout = inconclusive).",
+      "DESIGN.md §5 C23")
+check("C24", "exploration", "pair oracle (canonical semantic forms) over hook-exposed pre-hash key encodings of the real key builders, plus datastore-answer differential",
+      "Across ~1.2M (quick) / 18M (thorough) real key-builder calls on adversarial inputs: equal strict canonical form implies equal encoding, and equal encoding implies equal loose canonical form, for sub-problem, invariant, iterator, edge, invalidation and batch de-dup keys; digest collisions are counted separately.",
+      "Trusted: harness canonical forms (from storage docs); hook H4 re-verified with an independent xxhash on every observation; generateCacheKeyFromCheck replicated (unexported).",
+      "DESIGN.md §5 C24")
+check("C25", "exploration", "differential monitor against an independent template-CEL reference evaluator and type converter, at EvaluateTupleCondition and through Write/Check on both engines",
+      "Generated conditions over every parameter type and template crossed with every request/stored context shape (66k quick / 1.6M thorough) must agree with an oracle written without cel-go: merge order (stored wins), missing needed parameter fails, conversion failures fail, CEL semantics.",
+      "Oracle covers the template family only; undocumented wire forms and unneeded missing parameters are counted, not judged.",
+      "DESIGN.md §5 C25")
+check("C27", "exploration", "independent specification oracle over the real authenticators; complete product enumeration of OIDC token dimensions, derived-token fuzzing for pre-shared keys",
+      "All 56,700 combinations of signature kind x exp x iat x nbf x aud x iss x sub per configuration (2 quick / 6 thorough configurations + 4 config-boundary runs) are presented to the real RemoteOidcAuthenticator (directly and through middleware/interceptor) and compared with the statement's conjunction; pre-shared keys: 400/20,000 key sets with ~150 derived tokens each, accepted iff byte-equal.",
+      "Trusted: Go stdlib crypto/JSON/HTTP, loopback issuer; clock-skew leeway below 1h not observable by construction; nbf and kid-less tokens not judged on the accept side.",
+      "DESIGN.md §5 C27")
+check("C28", "exploration", "round-trip + systematic single-token mutation of issued tokens against the real encoders and in-process servers (memory, sqlite)",
+      "Every generated (position, type) round-trips through both serializers and all encoders; for 10k/40k tokens issued under a key every bit-flip / truncation / extension / alphabet swap / splice / foreign-key / forged variant must be rejected or decode to the identical bytes; same end to end through Read and ReadChanges.",
+      "Same-bytes re-encodings (base64 newlines, trailing bits) are counted as malleable-equal, not violations; cross-API tokens under the same key out of scope.",
+      "DESIGN.md §5 C28")
+check("C29", "exploration", "structured round-trip generation + differential validity check against a documentation-derived three-valued recogniser, with complete enumeration of short strings",
+      "All renderer/parser pairs of pkg/tuple must be the identity on 300k/2M generated valid values; validity predicates must agree with the recogniser on every string over a 10-symbol alphabet up to length 5 and a 5-symbol alphabet up to length 7 (complete blocks) and on 1.5M/8M random near-valid strings.",
+      "The recogniser judges only where doc comments and property text are unambiguous (silent classes listed in evidence).",
+      "DESIGN.md §5 C29")
+check("C31", "exploration", "sequential last-writer register model + porcupine linearizability check per (store, model); -race",
+      "Every ReadAssertions result is compared verbatim (proto.Equal + wire bytes) with the last list written for that (store, model) over 3x3 pairs on memory and sqlite, including rejected writes changing nothing; 47 (quick) / 444 (thorough) concurrent histories are checked with porcupine against a register model.",
+      "Client-boundary observation; failed concurrent writes modelled as pending; porcupine Unknown = inconclusive.",
+      "DESIGN.md §5 C31")
